@@ -37,8 +37,11 @@ def noninterference(rep, model, fname, runner, site):
     for e in ctx.trace:
         if e['kind'] not in ('call', 'pkgcall') or e.get('inlined'):
             continue            # an inlined helper is transparent: what its body does with the value follows in the trace
-        terms = list(e['args']) + [v for _, v in e['kwargs']]
         short = e['name'].rsplit('.', 1)[-1]
+        terms = list(e['args']) + [v for _, v in e['kwargs']]
+        if e['name'] in ('pool.imap', 'pool.map', 'pool.starmap'):
+            # the chunk size of an *ordered* pool primitive decides how the work is batched, never what is returned or in which order
+            terms = list(e['args'][:2]) + [v for k_, v in e['kwargs'] if k_ != 'chunksize']
         if any(nj in set(T.walk(t)) for t in terms) and short not in ('Pool', 'compute_features_2d'):
             bad.append(f'n_jobs reaches {short}')
         if any(pg in set(T.walk(t)) for t in terms) and short not in ('progress_bar', 'compute_features_2d'):
